@@ -100,6 +100,13 @@ fn main() {
                 println!("{c:45} -> {:?}", r.map(|x| x.map_err(|e| format!("{e}").chars().take(50).collect::<String>())));
             }
         }
+        Some("c17-control") => {
+            use std::io::Read;
+            let mut input = String::new();
+            let _ = std::io::stdin().read_to_string(&mut input);
+            let _ = libsodium_rs::ensure_init();
+            std::process::exit(pv::props::c17::control_main(args.get(2).map(|s| s.as_str()).unwrap_or(""), &input));
+        }
         Some("perturb-test") => {
             // run the failing-operation history once, loudly (no catch), and report what it contains
             pv::perturb::self_test();
